@@ -202,4 +202,1397 @@ theorem tokLoop_fence_step (ti : Bool) (g : Nat) (n : Nat) (hn : n < 4) (c : Cha
   rw [e]
   simp only [tokLoop, peek_at, dcfg, defaultTypes, tryTypes, f3, f4, f5, f6, hcf, hrd, Bool.false_eq_true, if_false]
 
+
+/-! ### The fragment with lists and fenced code blocks -/
+
+open Mistletoe.ComposeL (leaderOf markerOk leaderOk_of_marker sepS stopLineB StopLine stopLine_of PostOk itemDoc_facts
+  item_lines_last item_lines_next readList_step_stop readList_step_next leader_chars lineOk_prepend spaces_chars
+  indentDoc_lineOk indentDoc_ne itemDocOk_ne after_after dcfg_noBlank dcfg_len)
+
+/-- A tree of CommonMark constructs: everything `ComposeL.T2` has (paragraph, ATX heading, thematic break, block quote,
+    bullet / ordered list; children of quotes and list items are trees of this type again) and
+    * `fence ind delim info body close`: a fenced code block.  Opening line: `ind` spaces (0 … 3), the fence `delim` (three
+      or more backticks, or three or more tildes), the info string `info` as written (with its leading and trailing
+      spaces), "\n".  Then the content lines `body` as written (each loses up to `ind` leading spaces in the tree).
+      Then the closing line `close`: up to three spaces, the fence character at least `delim.length` times, spaces, "\n". -/
+inductive T3 where
+  | para (lines : List Str)
+  | heading (level : Nat) (text : Str) (line : Str)
+  | hr (line : Str)
+  | quote (bare : Bool) (kids : List T3)
+  | list (ordered : Bool) (start : Nat) (marker : Char) (pad : Nat) (loose : Bool) (items : List (List T3))
+  | fence (ind : Nat) (delim info : Str) (body : List Str) (close : Str)
+
+/-- the shape the specification gives a closing fence for the opening fence `d`: behind the leading spaces only fence
+    characters (the test `closes` asks for at least `d`, and fewer than four leading spaces), then only spaces, then "\n" -/
+def closeShape (d close : Str) : Bool :=
+  match d.head? with
+  | some c =>
+    let r := (lstripSp close).dropWhile (· == c)
+    r.getLast? == some '\n' && r.dropLast.all (· == ' ')
+  | none => false
+
+/-- well-formedness of a fenced code block (decidable):
+    * 0 ≤ ind ≤ 3; the fence is three or more backticks or three or more tildes;
+    * the info string has no line-boundary character and no tab, does not begin with the fence character, and contains no
+      backtick when the fence is made of backticks;
+    * every content line is one complete line without a tab that is not a closing line for this fence - by the test
+      `CodeFence.read` makes (`closes`: behind fewer than four spaces the opening fence string and nothing behind it but
+      non-blank characters and then whitespace; this is MORE than the specification's closing fences: a content line
+      such as "```abc" inside a "```" fence is excluded here, see the counterexample at the end);
+    * the closing line is one complete line without a tab, passes that test and has the specification's shape. -/
+def fenceOkB (ind : Nat) (d info : Str) (body : List Str) (close : Str) : Bool :=
+  decide (ind ≤ 3) && decide (3 ≤ d.length) && (d.all (· == '`') || d.all (· == '~'))
+    && info.all (fun c => !isLineSep c && c != '\t') && info.head? != d.head? && !(d.head? == some '`' && info.contains '`')
+    && body.all (fun l => oneLine l && !l.contains '\t' && !closes d l)
+    && oneLine close && !close.contains '\t' && closes d close && closeShape d close
+
+structure FenceFacts (ind : Nat) (d info : Str) (body : List Str) (close : Str) : Prop where
+  indLt : ind < 4
+  fo : ∃ c, FenceOk c d info
+  openOk : LineOk (sp ind ++ d ++ info ++ ['\n'])
+  body : ∀ l ∈ body, LineOk l ∧ closes d l = false
+  closeOk : LineOk close
+  closes : closes d close = true
+
+theorem fenceFacts_of (ind : Nat) (d info : Str) (body : List Str) (close : Str) (h : fenceOkB ind d info body close = true) :
+    FenceFacts ind d info body close := by
+  simp only [fenceOkB, Bool.and_eq_true, decide_eq_true_eq, Bool.or_eq_true, bne_iff_ne, ne_eq,
+    Bool.not_eq_eq_eq_not, Bool.not_true, Bool.and_eq_false_iff] at h
+  obtain ⟨⟨⟨⟨⟨⟨⟨⟨⟨⟨h0, h1⟩, h2⟩, h3⟩, h4⟩, h5⟩, h6⟩, h7⟩, h8⟩, h9⟩, _⟩ := h
+  have h3' : ∀ c ∈ info, isLineSep c = false ∧ c ≠ '\t' := by
+    intro c hc
+    have := List.all_eq_true.mp h3 c hc
+    simpa using this
+  have hnl : '\n' ∉ info := by
+    intro hm
+    have := (h3' _ hm).1
+    revert this; decide
+  have hfo : ∃ c, FenceOk c d info := by
+    rcases h2 with h2 | h2
+    · have hr := all_eq_replicate '`' d h2
+      have hd : d.head? = some '`' := by
+        rw [hr]; cases hdl : d.length with
+        | zero => omega
+        | succ n => simp [List.replicate_succ]
+      refine ⟨'`', Or.inl rfl, hr, h1, hnl, by rw [← hd]; exact h4, ?_⟩
+      intro _
+      rcases h5 with h5 | h5
+      · rw [hd] at h5; simp at h5
+      · simpa using h5
+    · have hr := all_eq_replicate '~' d h2
+      have hd : d.head? = some '~' := by
+        rw [hr]; cases hdl : d.length with
+        | zero => omega
+        | succ n => simp [List.replicate_succ]
+      exact ⟨'~', Or.inr rfl, hr, h1, hnl, by rw [← hd]; exact h4, by intro e; cases e⟩
+  refine ⟨by omega, hfo, ?_, ?_, lineOk_of close h7 (by simpa using h8), h9⟩
+  · obtain ⟨c, hf⟩ := hfo
+    have hdc : ∀ x ∈ d, isLineSep x = false ∧ x ≠ '\t' := by
+      intro x hx
+      rw [hf.rep] at hx
+      rw [(List.mem_replicate.mp hx).2]
+      rcases hf.ch with e | e <;> rw [e] <;> decide
+    have := lineOk_prepend (sp ind) _ (spaces_chars ind) (lineOk_prepend d _ hdc (lineOk_prepend info _ h3' lineOk_nl))
+    simpa [List.append_assoc] using this
+  · intro l hl
+    have := List.all_eq_true.mp h6 l hl
+    simp only [Bool.and_eq_true, Bool.not_eq_eq_eq_not, Bool.not_true] at this
+    exact ⟨lineOk_of l this.1.1 this.1.2, this.2⟩
+mutual
+/-- the source lines of one node -/
+def write3 : T3 → List Str
+  | .para ls => ls
+  | .heading _ _ line => [line]
+  | .hr line => [line]
+  | .quote bare kids => (writes3 kids).map (if bare then qbare else qsp)
+  | .list o n mk pad loose items => writeItems3 o mk pad loose n items
+  | .fence ind d info body close => (sp ind ++ d ++ info ++ ['\n']) :: (body ++ [close])
+/-- siblings, separated by exactly one "\n" line -/
+def writes3 : List T3 → List Str
+  | [] => []
+  | t :: rest =>
+    match rest with
+    | [] => write3 t
+    | _ :: _ => write3 t ++ ['\n'] :: writes3 rest
+/-- the items of a list: the lines of the item's blocks, the first behind the marker and `pad` spaces, the others behind
+    as many spaces as that is wide ("\n" lines stay "\n"); in a loose list one "\n" line between consecutive items -/
+def writeItems3 (o : Bool) (mk : Char) (pad : Nat) (loose : Bool) (n : Nat) : List (List T3) → List Str
+  | [] => []
+  | it :: rest =>
+    match rest with
+    | [] => indentDoc (leaderOf o n mk) pad (writes3 it)
+    | _ :: _ => indentDoc (leaderOf o n mk) pad (writes3 it) ++ (sepS loose ++ writeItems3 o mk pad loose (n + 1) rest)
+end
+
+def isList3 : T3 → Bool
+  | .list .. => true
+  | _ => false
+
+/-- lists and fenced code blocks: blocks that C05 does not count as closed by a blank line (an unclosed fence, the last item
+    of a list go on behind it); here the dispatcher is followed over them directly -/
+def isOpen3 : T3 → Bool
+  | .list .. => true
+  | .fence .. => true
+  | _ => false
+
+/-- what is asked of two consecutive siblings: behind a list no list, and a first line that is a `stopLineB` -/
+def sepOk3 (t t' : T3) : Bool := !isList3 t || (!isList3 t' && stopLineB ((write3 t').headD []))
+
+open Mistletoe.Document (joinNl) in
+mutual
+/-- well-formedness (decidable).  Paragraph, heading, thematic break, quote: as `Compose.T.ok`.  List:
+    * 1 ≤ pad ≤ 4; at least one item; every item has at least one block, all well-formed;
+    * every marker is a bullet `-`, `+`, `*`, or a number of at most nine digits (< 10⁹) and `.` or `)` (`markerOk`);
+    * the lines of an item (`itemDocOk`): the first begins with a character that is not whitespace; every other line is
+      "\n" or has a non-whitespace character after its spaces (`ContLine`); marker + first line is not a thematic break
+      (`* * *`, `- - -`);
+    * `loose` is the looseness the specification assigns: a loose list has two or more items or an item with two or
+      more blocks; the items of a tight list have one block each.
+    Siblings (`T3.oks`): a list is not followed by a list, and the block that follows a list begins with a
+    non-whitespace character and carries no list marker (`sepOk3`). -/
+def T3.ok : T3 → Bool
+  | .para ls => !ls.isEmpty && ls.all (fun l => inertLine l && proseLine l && oneLine l && !l.contains '\t')
+      && inertBody (joinNl (ls.map strip))
+  | .heading lv t line => !t.isEmpty && inertText t && headLine lv t line && oneLine line && !line.contains '\t'
+  | .hr line => hrLine line && oneLine line && !line.contains '\t'
+  | .quote bare kids => !kids.isEmpty && T3.oks kids && (!bare || (writes3 kids).all (fun s => s.head? != some ' '))
+  | .list o n mk pad loose items =>
+    decide (1 ≤ pad) && decide (pad ≤ 4) && !items.isEmpty && T3.okItems o mk pad n items
+      && (if loose then decide (2 ≤ items.length) || items.any (fun it => decide (1 < it.length))
+          else items.all (fun it => it.length == 1))
+  | .fence ind d info body close => fenceOkB ind d info body close
+def T3.oks : List T3 → Bool
+  | [] => true
+  | t :: rest => t.ok && T3.oks rest && (match rest with | [] => true | t' :: _ => sepOk3 t t')
+def T3.okItems (o : Bool) (mk : Char) (pad : Nat) (n : Nat) : List (List T3) → Bool
+  | [] => true
+  | it :: rest => !it.isEmpty && T3.oks it && markerOk o n mk && itemDocOk (writes3 it)
+      && !Scan.thematicBreak (leaderOf o n mk ++ List.replicate pad ' ' ++ (writes3 it).headD [])
+      && T3.okItems o mk pad (n + 1) rest
+end
+
+mutual
+/-- the parse-buffer entry expected for a node whose first line is line `n` -/
+def entry3 (n : Nat) : T3 → Entry
+  | .para ls => .paragraph ls n n
+  | .heading lv t line => .heading lv t (closingOf line) n n
+  | .hr line => .thematicBreak line n n
+  | .quote _ kids => .quote (entries3 n kids) (decide (1 < kids.length)) n n
+  | .list o s mk pad loose items => .list (items3 o mk pad loose s n items) n n
+  | .fence ind d info body _ => .codeFence (body.map (dedent ind)) ind d info (fenceLang info) n n
+def entries3 (n : Nat) : List T3 → List Entry
+  | [] => []
+  | t :: rest => entry3 n t :: entries3 (n + (write3 t).length + 1) rest
+/-- the items: content = the entries of the item's blocks; loose = a "\n" line follows inside the list, or the item has
+    more than one block; indentation 0; content offset = marker width + pad; the marker; the line of the marker -/
+def items3 (o : Bool) (mk : Char) (pad : Nat) (loose : Bool) (s : Nat) (n : Nat) : List (List T3) → List Item
+  | [] => []
+  | it :: rest =>
+    .mk (entries3 n it) ((loose && !rest.isEmpty) || decide (1 < it.length)) 0 ((leaderOf o s mk).length + pad) (leaderOf o s mk) n n
+      :: items3 o mk pad loose (s + 1) (n + (writes3 it).length + (sepS loose).length) rest
+end
+
+mutual
+/-- a quote occurs among the blocks (at any depth of list nesting): `Quote.read` switches `Paragraph.parse_setext` back on -/
+def touch3 : T3 → Bool
+  | .quote _ _ => true
+  | .list _ _ _ _ _ items => touchItems3 items
+  | _ => false
+def touches3 : List T3 → Bool
+  | [] => false
+  | t :: rest => touch3 t || touches3 rest
+def touchItems3 : List (List T3) → Bool
+  | [] => false
+  | it :: rest => touches3 it || touchItems3 rest
+end
+
+mutual
+/-- gas that suffices -/
+def need3 : T3 → Nat
+  | .para _ => 14
+  | .heading _ _ _ => 14
+  | .hr _ => 14
+  | .quote _ kids => needs3 kids + 6
+  | .list _ _ _ _ _ items => needItems3 items + 12
+  | .fence .. => 12
+def needs3 : List T3 → Nat
+  | [] => 0
+  | t :: rest => need3 t + needs3 rest + 14
+def needItems3 : List (List T3) → Nat
+  | [] => 0
+  | it :: rest => needs3 it + needItems3 rest + 1
+end
+/-! ### What well-formedness gives -/
+
+theorem oks3_cons (t : T3) (rest : List T3) (h : T3.oks (t :: rest) = true) :
+    t.ok = true ∧ T3.oks rest = true ∧ ∀ t' r, rest = t' :: r → sepOk3 t t' = true := by
+  simp only [T3.oks, Bool.and_eq_true] at h
+  refine ⟨h.1.1, h.1.2, ?_⟩
+  rintro t' r rfl
+  exact h.2
+
+theorem okItems_cons (o : Bool) (mk : Char) (pad n : Nat) (it : List T3) (rest : List (List T3))
+    (h : T3.okItems o mk pad n (it :: rest) = true) :
+    it ≠ [] ∧ T3.oks it = true ∧ leaderOk o (leaderOf o n mk) = true ∧ itemDocOk (writes3 it) = true ∧
+    Scan.thematicBreak (leaderOf o n mk ++ List.replicate pad ' ' ++ (writes3 it).headD []) = false ∧
+    T3.okItems o mk pad (n + 1) rest = true := by
+  simp only [T3.okItems, Bool.and_eq_true, Bool.not_eq_eq_eq_not, Bool.not_true, List.isEmpty_eq_false_iff] at h
+  obtain ⟨⟨⟨⟨⟨a, b⟩, c⟩, d⟩, e⟩, f⟩ := h
+  exact ⟨a, b, leaderOk_of_marker o n mk c, d, e, f⟩
+
+/-- the facts `T3.ok` packs for a list -/
+structure ListOk (o : Bool) (n : Nat) (mk : Char) (pad : Nat) (loose : Bool) (items : List (List T3)) : Prop where
+  p1 : 1 ≤ pad
+  p4 : pad ≤ 4
+  ne : items ≠ []
+  its : T3.okItems o mk pad n items = true
+  looseC : (if loose then decide (2 ≤ items.length) || items.any (fun it => decide (1 < it.length))
+          else items.all (fun it => it.length == 1)) = true
+  start : o = true → parseNat (natDigits n) = n
+
+theorem listOk_of (o : Bool) (n : Nat) (mk : Char) (pad : Nat) (loose : Bool) (items : List (List T3))
+    (h : (T3.list o n mk pad loose items).ok = true) : ListOk o n mk pad loose items := by
+  simp only [T3.ok, Bool.and_eq_true, decide_eq_true_eq, Bool.not_eq_eq_eq_not, Bool.not_true, List.isEmpty_eq_false_iff] at h
+  obtain ⟨⟨⟨⟨a, b⟩, c⟩, d⟩, e⟩ := h
+  exact ⟨a, b, c, d, e, fun _ => parseNat_natDigits n⟩
+theorem writeItems3_ne (o : Bool) (mk : Char) (pad : Nat) (loose : Bool) (n : Nat) (it : List T3) (rest : List (List T3))
+    (h : itemDocOk (writes3 it) = true) : writeItems3 o mk pad loose n (it :: rest) ≠ [] := by
+  have := indentDoc_ne (leaderOf o n mk) pad _ (itemDocOk_ne _ h)
+  cases rest with
+  | nil => simpa [writeItems3] using this
+  | cons a b => simp [writeItems3, this]
+
+theorem quoteOk3_of (bare : Bool) (kids : List T3) (h : (T3.quote bare kids).ok = true) :
+    kids ≠ [] ∧ T3.oks kids = true ∧ (bare = true → ∀ s ∈ writes3 kids, s.head? ≠ some ' ') := by
+  simp only [T3.ok, Bool.and_eq_true, Bool.not_eq_eq_eq_not, Bool.not_true, List.isEmpty_eq_false_iff,
+    Bool.or_eq_true, List.all_eq_true, bne_iff_ne, ne_eq] at h
+  refine ⟨h.1.1, h.1.2, ?_⟩
+  intro hb
+  rcases h.2 with h2 | h2
+  · rw [hb] at h2; cases h2
+  · exact h2
+
+theorem writeItems3_single (o : Bool) (mk : Char) (pad : Nat) (loose : Bool) (n : Nat) (it : List T3) :
+    writeItems3 o mk pad loose n [it] = indentDoc (leaderOf o n mk) pad (writes3 it) := by simp [writeItems3]
+
+theorem writeItems3_cons2 (o : Bool) (mk : Char) (pad : Nat) (loose : Bool) (n : Nat) (it it' : List T3) (r : List (List T3)) :
+    writeItems3 o mk pad loose n (it :: it' :: r) =
+      indentDoc (leaderOf o n mk) pad (writes3 it) ++ (sepS loose ++ writeItems3 o mk pad loose (n + 1) (it' :: r)) := by
+  simp [writeItems3]
+
+theorem writes3_cons2 (t t' : T3) (r : List T3) : writes3 (t :: t' :: r) = write3 t ++ ['\n'] :: writes3 (t' :: r) := by
+  simp [writes3]
+
+theorem writes3_single (t : T3) : writes3 [t] = write3 t := by simp [writes3]
+
+mutual
+theorem write3_lineOk : ∀ (t : T3), t.ok = true → (∀ s ∈ write3 t, LineOk s) ∧ write3 t ≠ []
+  | .para ls, h => by
+    have := paraOk_of ls (by simpa [T3.ok, T.ok] using h)
+    exact ⟨this.line, this.ne⟩
+  | .heading lv t line, h => by
+    have := headOk_of lv t line (by simpa [T3.ok, T.ok] using h)
+    simp only [write3, List.mem_singleton]
+    exact ⟨fun s hs => by rw [hs]; exact this.line, by simp⟩
+  | .hr line, h => by
+    have := hrOk_of line (by simpa [T3.ok, T.ok] using h)
+    simp only [write3, List.mem_singleton]
+    exact ⟨fun s hs => by rw [hs]; exact this.2, by simp⟩
+  | .quote bare kids, h => by
+    obtain ⟨hne, hk, _⟩ := quoteOk3_of bare kids h
+    have ih := writes3_lineOk kids hk
+    simp only [write3, List.mem_map]
+    constructor
+    · rintro s ⟨s0, hs0, rfl⟩
+      cases bare
+      · exact lineOk_qsp (ih.1 s0 hs0)
+      · exact lineOk_qbare (ih.1 s0 hs0)
+    · simpa using ih.2 hne
+  | .list o n mk pad loose items, h => by
+    have hl := listOk_of o n mk pad loose items h
+    refine ⟨writeItems3_lineOk o mk pad loose n items hl.its, ?_⟩
+    simp only [write3]
+    cases items with
+    | nil => exact absurd rfl hl.ne
+    | cons it rest => exact writeItems3_ne o mk pad loose n it rest (okItems_cons o mk pad n it rest hl.its).2.2.2.1
+  | .fence ind d info body close, h => by
+    have hf := fenceFacts_of ind d info body close (by simpa [T3.ok] using h)
+    simp only [write3]
+    refine ⟨?_, by simp⟩
+    intro s hs
+    rcases List.mem_cons.mp hs with rfl | hs
+    · exact hf.openOk
+    · rcases List.mem_append.mp hs with hs | hs
+      · exact (hf.body s hs).1
+      · simp only [List.mem_singleton] at hs; rw [hs]; exact hf.closeOk
+theorem writes3_lineOk : ∀ (ts : List T3), T3.oks ts = true → (∀ s ∈ writes3 ts, LineOk s) ∧ (ts ≠ [] → writes3 ts ≠ [])
+  | [], _ => by simp [writes3]
+  | t :: rest, h => by
+    obtain ⟨h1, h2, _⟩ := oks3_cons t rest h
+    have iht := write3_lineOk t h1
+    have ihr := writes3_lineOk rest h2
+    cases rest with
+    | nil => simpa [writes3] using iht
+    | cons t' r =>
+      rw [writes3_cons2]
+      constructor
+      · intro s hs
+        rcases List.mem_append.mp hs with hs | hs
+        · exact iht.1 s hs
+        · rcases List.mem_cons.mp hs with rfl | hs
+          · exact lineOk_nl
+          · exact ihr.1 s hs
+      · intro _; simp
+theorem writeItems3_lineOk (o : Bool) (mk : Char) (pad : Nat) (loose : Bool) : ∀ (n : Nat) (items : List (List T3)),
+    T3.okItems o mk pad n items = true → ∀ s ∈ writeItems3 o mk pad loose n items, LineOk s
+  | _, [], _ => by simp [writeItems3]
+  | n, it :: rest, h => by
+    obtain ⟨_, hit, hlead, _, _, hrest⟩ := okItems_cons o mk pad n it rest h
+    have h1 := indentDoc_lineOk o _ hlead pad _ (writes3_lineOk it hit).1
+    have h2 := writeItems3_lineOk o mk pad loose (n + 1) rest hrest
+    cases rest with
+    | nil => rw [writeItems3_single]; exact h1
+    | cons it' r =>
+      rw [writeItems3_cons2]
+      intro s hs
+      rcases List.mem_append.mp hs with hs | hs
+      · exact h1 s hs
+      · rcases List.mem_append.mp hs with hs | hs
+        · cases loose with
+          | false => simp [sepS] at hs
+          | true => simp only [sepS, if_true, List.mem_singleton] at hs; rw [hs]; exact lineOk_nl
+        · exact h2 s hs
+end
+
+
+/-! ### The claims -/
+
+/-- one node that is not a list, alone in its buffer -/
+def NodeClaim (ti : Bool) (t : T3) : Prop := ∀ (k : Nat) (st : St) (gas : Nat), need3 t ≤ gas →
+  tokenizeBlock (dcfg ti) gas (numbered k (write3 t)) (k + 1) st =
+    .ok ({ entries := [entry3 (k + 1) t], loose := false }, after st (touch3 t))
+
+/-- siblings in a buffer of their own, with or without a final "\n" line (the buffer of an item that is not the last
+    one of a loose list ends in one) -/
+def NodesClaim (ti : Bool) (ts : List T3) : Prop := ∀ (tail : Bool) (k : Nat) (st : St) (gas : Nat), needs3 ts ≤ gas →
+  tokenizeBlock (dcfg ti) gas (numbered k (writes3 ts ++ sepS tail)) (k + 1) st =
+    .ok ({ entries := entries3 (k + 1) ts, loose := decide (1 < ts.length) || tail }, after st (touches3 ts))
+
+def firstLine3 (items : List (List T3)) : Str :=
+  match items with
+  | it :: _ => (writes3 it).headD []
+  | [] => []
+
+/-- `List.read` entered on the first item (no leader, no marker yet), or re-entered on a later item (the first item's
+    marker as leader, the marker of this item handed on by the previous `ListItem.read`) -/
+def LdNm (o : Bool) (mk : Char) (pad n : Nat) (items : List (List T3)) (ld : Option Str) (nm : Option (Nat × Nat × Str × Str)) : Prop :=
+  (ld = none ∧ nm = none) ∨
+  (∃ n0, ld = some (leaderOf o n0 mk) ∧ leaderOk o (leaderOf o n0 mk) = true ∧
+    nm = some (0, (leaderOf o n mk).length + pad, leaderOf o n mk, firstLine3 items))
+
+/-- `List.read` over the written items, anywhere in a buffer: `pre` before them, `post` behind them -/
+def ItemsClaim (ti : Bool) (o : Bool) (mk : Char) (pad : Nat) (loose : Bool) (n : Nat) (items : List (List T3)) : Prop :=
+  ∀ (pre post : List Line) (start k : Nat) (st : St) (gas : Nat) (acc : List Item) ld nm,
+    start + pre.length = k + 1 → needItems3 items ≤ gas → PostOk post → LdNm o mk pad n items ld nm →
+    readList (dcfg ti) gas ⟨pre ++ numbered k (writeItems3 o mk pad loose n items) ++ post, pre.length, start⟩ st ld nm acc =
+      .ok (acc.reverse ++ items3 o mk pad loose n (k + 1) items,
+           ⟨pre ++ numbered k (writeItems3 o mk pad loose n items) ++ post,
+            pre.length + (writeItems3 o mk pad loose n items).length, start⟩,
+           after st (touchItems3 items))
+mutual
+theorem entry3_shift (j : Nat) : ∀ (n : Nat) (t : T3), shiftEntry j (entry3 n t) = entry3 (n + j) t
+  | n, .para ls => by simp [entry3, shiftEntry]
+  | n, .heading lv t line => by simp [entry3, shiftEntry]
+  | n, .hr line => by simp [entry3, shiftEntry]
+  | n, .quote _ kids => by simp [entry3, shiftEntry, entries3_shift j n kids]
+  | n, .list o s mk pad loose items => by simp [entry3, shiftEntry, items3_shift j o mk pad loose s n items]
+  | n, .fence ind d info body close => by simp [entry3, shiftEntry]
+theorem entries3_shift (j : Nat) : ∀ (n : Nat) (ts : List T3), shiftEntries j (entries3 n ts) = entries3 (n + j) ts
+  | n, [] => by simp [entries3, shiftEntries]
+  | n, t :: rest => by
+    simp only [entries3, shiftEntries, entry3_shift j n t, entries3_shift j _ rest]
+    congr 2; omega
+theorem items3_shift (j : Nat) (o : Bool) (mk : Char) (pad : Nat) (loose : Bool) : ∀ (s n : Nat) (items : List (List T3)),
+    shiftItems j (items3 o mk pad loose s n items) = items3 o mk pad loose s (n + j) items
+  | s, n, [] => by simp [items3, shiftItems]
+  | s, n, it :: rest => by
+    simp only [items3, shiftItems, shiftItem, entries3_shift j n it, items3_shift j o mk pad loose _ _ rest]
+    congr 2; omega
+end
+
+theorem entries3_length (n : Nat) : ∀ (ts : List T3), (entries3 n ts).length = ts.length := by
+  intro ts
+  induction ts generalizing n with
+  | nil => rfl
+  | cons t rest ih => simp [entries3, ih]
+
+theorem closed_entry3 (n : Nat) : ∀ (t : T3), isOpen3 t = false → closedE (entry3 n t) = true
+  | .para _, _ => rfl
+  | .heading _ _ _, _ => rfl
+  | .hr _, _ => rfl
+  | .quote _ _, _ => rfl
+  | .list .., h => by simp [isOpen3] at h
+  | .fence .., h => by simp [isOpen3] at h
+
+theorem writeItems3_head (o : Bool) (mk : Char) (pad : Nat) (loose : Bool) (n : Nat) (it : List T3) (rest : List (List T3))
+    (c0 : Str) (cs : List Str) (h : writes3 it = c0 :: cs) :
+    ∃ tl, writeItems3 o mk pad loose n (it :: rest) = (leaderOf o n mk ++ List.replicate pad ' ' ++ c0) :: tl := by
+  cases rest with
+  | nil => rw [writeItems3_single, h]; exact ⟨_, rfl⟩
+  | cons a b => rw [writeItems3_cons2, h]; exact ⟨_, rfl⟩
+
+theorem otherMarker_of_ldnm (o : Bool) (mk : Char) (pad n : Nat) (items : List (List T3)) (ld nm)
+    (h : LdNm o mk pad n items ld nm) (hok : leaderOk o (leaderOf o n mk) = true) : otherMarkerType ld nm = false := by
+  rcases h with ⟨rfl, _⟩ | ⟨n0, rfl, h0, rfl⟩
+  · exact otherMarkerType_none_left _
+  · simp only [otherMarkerType, Bool.not_eq_eq_eq_not, Bool.not_false]
+    cases o with
+    | false => simp [leaderOf, sameMarkerType]
+    | true =>
+      obtain ⟨d, e, hd, _, h1, _, hdig⟩ := leaderOk_ordered _ h0
+      obtain ⟨d', e', hd', _, h1', _, hdig'⟩ := leaderOk_ordered _ hok
+      simp only [leaderOf, if_true] at hd hd' ⊢
+      have e1 : natDigits n0 = d ∧ mk = e := by
+        have := List.append_inj' hd (by simp)
+        exact ⟨this.1, by simpa using this.2⟩
+      have e2 : natDigits n = d' ∧ mk = e' := by
+        have := List.append_inj' hd' (by simp)
+        exact ⟨this.1, by simpa using this.2⟩
+      have hl : ((natDigits n0 ++ [mk]).length == 1) = false := by
+        rw [e1.1]; simp only [List.length_append, List.length_singleton, beq_eq_false_iff_ne, ne_eq]; omega
+      simp only [sameMarkerType, hl, Bool.false_eq_true, if_false, List.dropLast_concat, List.getLast?_concat,
+        Bool.and_eq_true, List.all_eq_true, Bool.not_eq_eq_eq_not, Bool.not_true, List.isEmpty_eq_false_iff, beq_self_eq_true, and_true]
+      rw [e1.1, e2.1]
+      refine ⟨⟨⟨?_, ?_⟩, ?_⟩, ?_⟩
+      · intro x hx; exact (asciiDigit_facts x (hdig x hx)).1
+      · intro x hx; exact (asciiDigit_facts x (hdig' x hx)).1
+      · intro e; subst e; simp at h1
+      · intro e; subst e; simp at h1'
+
+
+/-! ### `List.read` over the written items -/
+
+theorem needItems3_cons (it : List T3) (rest : List (List T3)) : needItems3 (it :: rest) = needs3 it + needItems3 rest + 1 := by
+  simp [needItems3]
+
+/-- the last item -/
+theorem items_last (ti : Bool) (o : Bool) (mk : Char) (pad : Nat) (loose : Bool) (n : Nat) (it : List T3)
+    (h1 : 1 ≤ pad) (h4 : pad ≤ 4) (hok : T3.okItems o mk pad n [it] = true) (hN : NodesClaim ti it) :
+    ItemsClaim ti o mk pad loose n [it] := by
+  intro pre post start k st gas acc ld nm hk hg hpost hln
+  obtain ⟨_, _, hlead, hdoc, _, _⟩ := okItems_cons o mk pad n it [] hok
+  have hm := listLeader_of o _ hlead
+  obtain ⟨c0, cs, hw⟩ : ∃ c0 cs, writes3 it = c0 :: cs := by
+    cases hw : writes3 it with
+    | nil => rw [hw] at hdoc; simp [itemDocOk] at hdoc
+    | cons c0 cs => exact ⟨c0, cs, rfl⟩
+  rw [hw] at hdoc
+  obtain ⟨g, rfl⟩ : ∃ g, gas = g + 1 := ⟨gas - 1, by rw [needItems3_cons] at hg; omega⟩
+  have hg' : needs3 it ≤ g := by rw [needItems3_cons] at hg; omega
+  have hprev : nm = none ∨ nm = some (0, (leaderOf o n mk).length + pad, leaderOf o n mk, c0) := by
+    rcases hln with ⟨_, h⟩ | ⟨_, _, _, h⟩
+    · exact Or.inl h
+    · right; rw [h]; simp [firstLine3, hw]
+  have hil := item_lines_last (dcfg ti) _ hm pad h1 h4 c0 cs hdoc pre post start k hk hpost nm hprev
+  have htok := hN false k st g hg'
+  simp only [sepS, Bool.false_eq_true, if_false, List.append_nil, hw] at htok
+  have hom := otherMarker_of_ldnm o mk pad n [it] ld nm hln hlead
+  rw [writeItems3_single, hw]
+  rw [readList_step_stop (dcfg ti) g _ st ld nm acc _ _ _ _ _ _ _ _ _ _ hom hil htok]
+  simp only [items3, entries3_length, List.isEmpty_nil, Bool.not_true, Bool.and_false, Bool.false_or, Bool.or_false,
+    touchItems3, gt_iff_lt, Bool.and_self, List.length_cons, indentDoc, List.length_map]
+
+/-- an item and the items behind it -/
+theorem items_cons (ti : Bool) (o : Bool) (mk : Char) (pad : Nat) (loose : Bool) (n : Nat) (it it' : List T3) (r : List (List T3))
+    (h1 : 1 ≤ pad) (h4 : pad ≤ 4) (hok : T3.okItems o mk pad n (it :: it' :: r) = true) (hN : NodesClaim ti it)
+    (hR : ItemsClaim ti o mk pad loose (n + 1) (it' :: r)) :
+    ItemsClaim ti o mk pad loose n (it :: it' :: r) := by
+  intro pre post start k st gas acc ld nm hk hg hpost hln
+  obtain ⟨_, _, hlead, hdoc, _, hok'⟩ := okItems_cons o mk pad n it (it' :: r) hok
+  obtain ⟨_, _, hlead', hdoc', htb', _⟩ := okItems_cons o mk pad (n + 1) it' r hok'
+  have hm := listLeader_of o _ hlead
+  have hm' := listLeader_of o _ hlead'
+  obtain ⟨c0, cs, hw⟩ : ∃ c0 cs, writes3 it = c0 :: cs := by
+    cases hw : writes3 it with
+    | nil => rw [hw] at hdoc; simp [itemDocOk] at hdoc
+    | cons c0 cs => exact ⟨c0, cs, rfl⟩
+  obtain ⟨c0', cs', hw'⟩ : ∃ c0 cs, writes3 it' = c0 :: cs := by
+    cases hw : writes3 it' with
+    | nil => rw [hw] at hdoc'; simp [itemDocOk] at hdoc'
+    | cons c0 cs => exact ⟨c0, cs, rfl⟩
+  rw [hw] at hdoc
+  rw [hw'] at hdoc' htb'
+  simp only [List.headD_cons] at htb'
+  obtain ⟨⟨ch', r0', rfl, hch'⟩, _, _⟩ := itemDoc_facts c0' cs' hdoc'
+  obtain ⟨g, rfl⟩ : ∃ g, gas = g + 1 := ⟨gas - 1, by rw [needItems3_cons] at hg; omega⟩
+  have hg1 : needs3 it ≤ g := by rw [needItems3_cons] at hg; omega
+  have hg2 : needItems3 (it' :: r) ≤ g := by rw [needItems3_cons] at hg; omega
+  have hprev : nm = none ∨ nm = some (0, (leaderOf o n mk).length + pad, leaderOf o n mk, c0) := by
+    rcases hln with ⟨_, h⟩ | ⟨_, _, _, h⟩
+    · exact Or.inl h
+    · right; rw [h]; simp [firstLine3, hw]
+  -- the lines of the list, split behind the first item
+  obtain ⟨tl, htl⟩ := writeItems3_head o mk pad loose (n + 1) it' r (ch' :: r0') cs' hw'
+  let k2 := k + (cs.length + 1 + (sepS loose).length)
+  have hlen : (indentDoc (leaderOf o n mk) pad (c0 :: cs) ++ sepS loose).length = cs.length + 1 + (sepS loose).length := by
+    simp [indentDoc]; omega
+  have hsplit : numbered k (writeItems3 o mk pad loose n (it :: it' :: r)) =
+      numbered k (indentDoc (leaderOf o n mk) pad (c0 :: cs) ++ sepS loose) ++
+        numbered k2 (writeItems3 o mk pad loose (n + 1) (it' :: r)) := by
+    rw [writeItems3_cons2, hw, ← List.append_assoc, numbered_append, hlen]
+  -- the marker line of the next item
+  obtain ⟨c, m'', hmc, hc⟩ := hm'.lead
+  let l' : Line := { s := leaderOf o (n + 1) mk ++ List.replicate pad ' ' ++ ch' :: r0', origin := k2 + 1 }
+  have hl's : l'.s = c :: (m'' ++ List.replicate pad ' ' ++ ch' :: r0') := by
+    show leaderOf o (n + 1) mk ++ List.replicate pad ' ' ++ ch' :: r0' = _
+    rw [hmc]; simp
+  have hnext : numbered k2 (writeItems3 o mk pad loose (n + 1) (it' :: r)) = l' :: numbered (k2 + 1) tl := by
+    rw [htl, numbered_cons]
+  have hnc : parseContinuation l'.s ((leaderOf o n mk).length + pad) = none := by
+    rw [hl's]
+    exact parseContinuation_lead c _ _ (by omega) hc.n_sp hc.n_tab (by rintro rfl; exact absurd hc.nsp (by decide))
+  have hpm' : parseMarker l'.s = some (0, (leaderOf o (n + 1) mk).length + pad, leaderOf o (n + 1) mk, ch' :: r0') :=
+    parseMarker_first _ hm' pad h1 h4 ch' r0' hch'
+  have hne : NoEarly l'.s := by
+    rw [hl's]
+    refine lead_noEarly hc _ ?_
+    rw [← hl's]
+    exact htb'
+  have hil := item_lines_next (dcfg ti) _ hm pad h1 h4 c0 cs hdoc loose pre (numbered (k2 + 1) tl ++ post) l' start k hk _ hnc hpm' hne nm hprev
+  have htok := hN loose k st g hg1
+  rw [hw] at htok
+  have hom := otherMarker_of_ldnm o mk pad n (it :: it' :: r) ld nm hln hlead
+  have hbuf : pre ++ numbered k (writeItems3 o mk pad loose n (it :: it' :: r)) ++ post =
+      pre ++ numbered k (indentDoc (leaderOf o n mk) pad (c0 :: cs) ++ sepS loose) ++ l' :: (numbered (k2 + 1) tl ++ post) := by
+    rw [hsplit, hnext]; simp
+  rw [hbuf, readList_step_next (dcfg ti) g _ st ld nm acc _ _ _ _ _ _ _ _ _ _ _ hom hil htok]
+  -- the items behind
+  have hbuf2 : pre ++ numbered k (indentDoc (leaderOf o n mk) pad (c0 :: cs) ++ sepS loose) ++ l' :: (numbered (k2 + 1) tl ++ post) =
+      (pre ++ numbered k (indentDoc (leaderOf o n mk) pad (c0 :: cs) ++ sepS loose)) ++
+        numbered k2 (writeItems3 o mk pad loose (n + 1) (it' :: r)) ++ post := by
+    rw [hnext]; simp
+  have hpos : pre.length + (cs.length + 1 + (sepS loose).length) =
+      (pre ++ numbered k (indentDoc (leaderOf o n mk) pad (c0 :: cs) ++ sepS loose)).length := by
+    rw [List.length_append, numbered_length, hlen]
+  have hln' : LdNm o mk pad (n + 1) (it' :: r) (some (ld.getD (leaderOf o n mk)))
+      (some (0, (leaderOf o (n + 1) mk).length + pad, leaderOf o (n + 1) mk, ch' :: r0')) := by
+    right
+    rcases hln with ⟨rfl, _⟩ | ⟨n0, rfl, h0, _⟩
+    · exact ⟨n, rfl, hlead, by simp [firstLine3, hw']⟩
+    · exact ⟨n0, rfl, h0, by simp [firstLine3, hw']⟩
+  rw [hbuf2, hpos]
+  rw [hR _ post start k2 _ g _ _ _ (by rw [← hpos]; omega) hg2 hpost hln']
+  simp only [items3, hw, List.length_cons, touchItems3, after_after, List.isEmpty_cons, Bool.not_false, Bool.and_true,
+    List.reverse_cons, List.append_assoc, List.singleton_append, List.length_append, numbered_length, hlen]
+  have e1 : k2 + 1 = k + 1 + (cs.length + 1) + (sepS loose).length := by show k + _ + 1 = _; omega
+  have e2 : (writeItems3 o mk pad loose n (it :: it' :: r)).length =
+      cs.length + 1 + (sepS loose).length + (writeItems3 o mk pad loose (n + 1) (it' :: r)).length := by
+    rw [writeItems3_cons2, hw, ← List.append_assoc, List.length_append, hlen]
+  rw [e1, e2, Bool.or_comm (decide (1 < it.length)) loose]
+  simp only [← Nat.add_assoc, hnext, List.cons_append]
+
+
+/-! ### Nodes that are not lists -/
+
+theorem needs3_cons (t : T3) (rest : List T3) : needs3 (t :: rest) = need3 t + needs3 rest + 14 := by simp [needs3]
+
+theorem node_para (ti : Bool) (ls : List Str) (h : (T3.para ls).ok = true) : NodeClaim ti (.para ls) := by
+  intro k st gas hg
+  have hp := paraOk_of ls (by simpa [T3.ok, T.ok] using h)
+  obtain ⟨l0, tl, hl, ho⟩ := numbered_ne k ls hp.ne
+  have hs : (l0 :: tl).map (·.s) = ls := by rw [← hl]; exact numbered_s k ls
+  obtain ⟨g, rfl⟩ : ∃ g, gas = g + 14 := ⟨gas - 14, by simp only [need3] at hg; omega⟩
+  have := Props.C14.C14_single_paragraph_default ti l0 tl
+    (fun l hm => hp.inert _ (numbered_mem k ls l (by rw [hl]; exact hm))) (k + 1) st g
+  simp only [write3, touch3, after_false, entry3, hl]
+  rw [hs, ho] at this
+  exact this
+
+theorem node_heading (ti : Bool) (lv : Nat) (t line : Str) (h : (T3.heading lv t line).ok = true) : NodeClaim ti (.heading lv t line) := by
+  intro k st gas hg
+  have hh := headOk_of lv t line (by simpa [T3.ok, T.ok] using h)
+  obtain ⟨g, rfl⟩ : ∃ g, gas = g + 6 := ⟨gas - 6, by simp only [need3] at hg; omega⟩
+  have := tokenize_heading ti lv t line hh.head (k + 1) (k + 1) st g
+  simp only [write3, touch3, after_false, entry3, numbered_cons, show numbered (k + 1) [] = [] from rfl]
+  exact this
+
+theorem node_hr (ti : Bool) (line : Str) (h : (T3.hr line).ok = true) : NodeClaim ti (.hr line) := by
+  intro k st gas hg
+  have hh := hrOk_of line (by simpa [T3.ok, T.ok] using h)
+  obtain ⟨g, rfl⟩ : ∃ g, gas = g + 9 := ⟨gas - 9, by simp only [need3] at hg; omega⟩
+  have := tokenize_hr ti line hh.1 (k + 1) (k + 1) st g
+  simp only [write3, touch3, after_false, entry3, numbered_cons, show numbered (k + 1) [] = [] from rfl]
+  exact this
+
+theorem node_quote (ti : Bool) (bare : Bool) (kids : List T3) (h : (T3.quote bare kids).ok = true) (hN : NodesClaim ti kids) :
+    NodeClaim ti (.quote bare kids) := by
+  intro k st gas hg
+  obtain ⟨hne, hk, hbare⟩ := quoteOk3_of bare kids h
+  obtain ⟨g, rfl⟩ : ∃ g, gas = g + 6 := ⟨gas - 6, by simp only [need3] at hg; omega⟩
+  have hg' : needs3 kids ≤ g := by simp only [need3] at hg; omega
+  have ih := hN false k { st with setext := false } g hg'
+  simp only [sepS, Bool.false_eq_true, if_false, List.append_nil, Bool.or_false] at ih
+  have hw := writes3_lineOk kids hk
+  obtain ⟨l0, tl, hl, ho⟩ := numbered_ne k (writes3 kids) (hw.2 hne)
+  rw [hl] at ih
+  simp only [write3, touch3, entry3]
+  have hmem : ∀ l ∈ l0 :: tl, l.s ∈ writes3 kids := fun l hm => numbered_mem k _ l (by rw [hl]; exact hm)
+  cases bare with
+  | false =>
+    have := Props.C04.C04_quote_wraps_default ti l0 tl
+      (fun l hm => lineOk_notab (hw.1 _ (hmem l hm))) (k + 1) st _ g _ ih
+    have e1 : numbered k ((writes3 kids).map qsp) = (l0 :: tl).map quoteSp := by
+      rw [← hl]; exact Props.C04.numbered_map_sp k (writes3 kids)
+    simp only [Bool.false_eq_true, if_false]
+    rw [e1]
+    refine Eq.trans this ?_
+    rw [ho]
+    simp [after]
+  | true =>
+    have := Props.C04.C04_quote_wraps_bare (dcfg ti) [.htmlBlock, .blockCode, .heading]
+      [.codeFence, .thematicBreak, .list, .table, .footnote, .paragraph] rfl (by decide) (by decide) l0 tl
+      (fun l hm => ⟨lineOk_notab (hw.1 _ (hmem l hm)), by
+        have hne' := lineOk_ne (hw.1 _ (hmem l hm))
+        have hsp := hbare rfl _ (hmem l hm)
+        cases hs : l.s with
+        | nil => exact absurd hs hne'
+        | cons c r =>
+          refine ⟨c, r, rfl, ?_⟩
+          intro e; rw [hs, e] at hsp; exact hsp rfl⟩)
+      (k + 1) st _ g _ ih
+    have e1 : numbered k ((writes3 kids).map qbare) = (l0 :: tl).map quoteBare := by
+      rw [← hl]; exact Props.C04.numbered_map_bare k (writes3 kids)
+    simp only [if_true]
+    rw [e1]
+    refine Eq.trans this ?_
+    rw [ho]
+    simp [after]
+
+theorem lines_ok_tail (ts : List T3) (h : T3.oks ts = true) (tail : Bool) : ∀ s ∈ writes3 ts ++ sepS tail, LineOk s := by
+  intro s hs
+  rcases List.mem_append.mp hs with hs | hs
+  · exact (writes3_lineOk ts h).1 s hs
+  · cases tail with
+    | false => simp [sepS] at hs
+    | true => simp only [sepS, if_true, List.mem_singleton] at hs; rw [hs]; exact lineOk_nl
+/-- a node that is not a list, alone or before a final "\n" line -/
+theorem nodes_single_closed (ti : Bool) (t : T3) (hok : t.ok = true) (hnl : isOpen3 t = false) (hT : NodeClaim ti t) :
+    NodesClaim ti [t] := by
+  intro tail k st gas hg
+  rw [needs3_cons] at hg
+  cases tail with
+  | false =>
+    have := hT k st gas (by omega)
+    simpa [sepS, writes3_single, entries3, touches3] using this
+  | true =>
+    have hA := hT k st (need3 t) (Nat.le_refl _)
+    have hw := write3_lineOk t hok
+    obtain ⟨g', hg', heq⟩ := tokenizeBlock_prefix_lists (dcfg ti) (dcfg_noBlank ti) (numbered k (write3 t))
+      { s := ['\n'], origin := k + (write3 t).length + 1 } rfl [] (k + 1) st (need3 t) _ _ hA
+      (by intro e he; simp only [List.getLast?_singleton, Option.some.injEq] at he; subst he; exact closed_entry3 _ t hnl)
+      (numbered_allNlEnd k _ hw.1) 11 (by rw [dcfg_len]; omega)
+    obtain ⟨g'', rfl⟩ : ∃ g'', g' = g'' + 1 := ⟨g' - 1, by omega⟩
+    have hend : FW.peek ⟨numbered k (write3 t) ++ [{ s := ['\n'], origin := k + (write3 t).length + 1 }],
+        (numbered k (write3 t)).length + 1, k + 1⟩ = none := by
+      have := peek_end (numbered k (write3 t) ++ [{ s := ['\n'], origin := k + (write3 t).length + 1 }]) (k + 1)
+      simpa using this
+    simp only [tokLoop, hend] at heq
+    have hbuf : numbered k (writes3 [t] ++ sepS true) =
+        numbered k (write3 t) ++ [{ s := ['\n'], origin := k + (write3 t).length + 1 }] := by
+      rw [writes3_single, numbered_append]; rfl
+    rw [hbuf]
+    refine tokenizeBlock_mono (dcfg ti) _ _ _ _ (need3 t + 11) gas (by omega) ?_
+    rw [heq]
+    simp [entries3, touches3]
+
+
+theorem buf_cons2 (t t' : T3) (r : List T3) (tail : Bool) (k : Nat) :
+    numbered k (writes3 (t :: t' :: r) ++ sepS tail) =
+      numbered k (write3 t) ++ { s := ['\n'], origin := k + (write3 t).length + 1 } ::
+        (numbered k (writes3 (t' :: r) ++ sepS tail)).map (Line.sh ((numbered k (write3 t)).length + 1)) := by
+  rw [writes3_cons2, List.append_assoc, numbered_append, List.cons_append, numbered_cons, numbered_length, ← numbered_sh]
+  have : k + (write3 t).length + 1 = k + ((write3 t).length + 1) := by omega
+  rw [this]
+
+/-- a node that is not a list, a "\n" line, further siblings: C05 -/
+theorem nodes_cons_closed (ti : Bool) (t t' : T3) (r : List T3) (hok : T3.oks (t :: t' :: r) = true) (hnl : isOpen3 t = false)
+    (hT : NodeClaim ti t) (hR : NodesClaim ti (t' :: r)) : NodesClaim ti (t :: t' :: r) := by
+  intro tail k st gas hg
+  rw [needs3_cons] at hg
+  obtain ⟨h1, h2, _⟩ := oks3_cons t (t' :: r) hok
+  have hA := hT k st (need3 t) (Nat.le_refl _)
+  have hB := hR tail k (after st (touch3 t)) (gas - need3 t - 11) (by omega)
+  have hwt := write3_lineOk t h1
+  have key := tokenizeBlock_concat_lists (dcfg ti) (dcfg_noBlank ti) (numbered k (write3 t))
+    (numbered k (writes3 (t' :: r) ++ sepS tail)) { s := ['\n'], origin := k + (write3 t).length + 1 } rfl (k + 1) st
+    (need3 t) (gas - need3 t - 11) _ _ _ _ hA
+    (by intro e he; simp only [List.getLast?_singleton, Option.some.injEq] at he; subst he; exact closed_entry3 _ t hnl)
+    hB (numbered_allNlEnd k _ hwt.1) (numbered_allNlEnd k _ (lines_ok_tail _ h2 tail))
+  have hgas : gas = need3 t + (gas - need3 t - 11 + (dcfg ti).types.length + 1) := by rw [dcfg_len]; omega
+  rw [buf_cons2, hgas, key, numbered_length, entries3_shift]
+  have e3 : k + 1 + ((write3 t).length + 1) = k + 1 + (write3 t).length + 1 := by omega
+  simp only [List.singleton_append, entries3, e3, List.length_cons, touches3, after_after]
+  have hl : decide (1 < r.length + 1 + 1) = true := by simp
+  rw [hl]
+  simp
+
+
+/-! ### Lists among the siblings -/
+
+/-- the dispatch loop on the first line of a written list, `post` behind the list: one `List` entry, the cursor on the
+    line behind the list -/
+theorem list_then (ti : Bool) (o : Bool) (n : Nat) (mk : Char) (pad : Nat) (loose : Bool) (items : List (List T3))
+    (hok : (T3.list o n mk pad loose items).ok = true) (hI : ItemsClaim ti o mk pad loose n items)
+    (post : List Line) (hpost : PostOk post) (k : Nat) (st : St) (g : Nat) (hg : needItems3 items ≤ g)
+    (acc : List Entry) (lo : Bool) :
+    tokLoop (dcfg ti) (g + 8) ⟨numbered k (write3 (.list o n mk pad loose items)) ++ post, 0, k + 1⟩ st acc lo =
+      tokLoop (dcfg ti) (g + 7)
+        ⟨numbered k (write3 (.list o n mk pad loose items)) ++ post, (write3 (.list o n mk pad loose items)).length, k + 1⟩
+        (after st (touch3 (.list o n mk pad loose items))) (entry3 (k + 1) (.list o n mk pad loose items) :: acc) lo := by
+  have hl := listOk_of o n mk pad loose items hok
+  cases items with
+  | nil => exact absurd rfl hl.ne
+  | cons it rest =>
+    obtain ⟨_, _, hlead, hdoc, htb, _⟩ := okItems_cons o mk pad n it rest hl.its
+    have hm := listLeader_of o _ hlead
+    obtain ⟨c0, cs, hw⟩ : ∃ c0 cs, writes3 it = c0 :: cs := by
+      cases hw : writes3 it with
+      | nil => rw [hw] at hdoc; simp [itemDocOk] at hdoc
+      | cons c0 cs => exact ⟨c0, cs, rfl⟩
+    rw [hw] at htb
+    simp only [List.headD_cons] at htb
+    obtain ⟨tl, htl⟩ := writeItems3_head o mk pad loose n it rest c0 cs hw
+    obtain ⟨c, m'', hmc, hc⟩ := hm.lead
+    have hrl := hI [] post (k + 1) k st g [] none none (by simp) hg hpost (Or.inl ⟨rfl, rfl⟩)
+    simp only [List.nil_append, List.length_nil, Nat.zero_add, List.reverse_nil] at hrl
+    simp only [write3, touch3, entry3]
+    generalize hL : writeItems3 o mk pad loose n (it :: rest) = L at hrl htl ⊢
+    subst htl
+    rw [numbered_cons] at hrl ⊢
+    have hls : ({ s := leaderOf o n mk ++ List.replicate pad ' ' ++ c0, origin := k + 1 } : Line).s =
+        c :: (m'' ++ List.replicate pad ' ' ++ c0) := by
+      show leaderOf o n mk ++ List.replicate pad ' ' ++ c0 = _
+      rw [hmc]; simp
+    have hp := peek_at [] { s := leaderOf o n mk ++ List.replicate pad ' ' ++ c0, origin := k + 1 } (numbered (k + 1) tl ++ post) (k + 1)
+    simp only [List.nil_append, List.length_nil] at hp
+    have hty := tryTypes_lead (dcfg ti)
+      ⟨{ s := leaderOf o n mk ++ List.replicate pad ' ' ++ c0, origin := k + 1 } :: (numbered (k + 1) tl ++ post), 0, k + 1⟩ st
+      _ c _ hls hc htb [.table, .footnote, .paragraph] g [.htmlBlock, .blockCode, .heading, .quote, .codeFence, .thematicBreak]
+      (by decide) (by decide) (by decide)
+    have hstart : listStart (leaderOf o n mk ++ List.replicate pad ' ' ++ c0) = true := listStart_first _ hm pad hl.p1 _
+    have e : g + 8 = (g + 7) + 1 := by omega
+    rw [e]
+    generalize hG : g + 7 = G
+    simp only [tokLoop, List.cons_append, hp]
+    subst hG
+    have hty' : (dcfg ti).types = [.htmlBlock, .blockCode, .heading, .quote, .codeFence, .thematicBreak] ++ .list :: [.table, .footnote, .paragraph] := rfl
+    rw [hty']
+    simp only [List.length_cons, List.length_nil, Nat.zero_add] at hty
+    have e2 : g + 7 = g + 1 + (1 + 1 + 1 + 1 + 1 + 1) := by omega
+    rw [e2, hty]
+    simp only [tryTypes, hstart, if_true]
+    simp only [List.cons_append] at hrl
+    rw [hrl]
+
+
+theorem need3_list (o : Bool) (n : Nat) (mk : Char) (pad : Nat) (loose : Bool) (items : List (List T3)) :
+    need3 (.list o n mk pad loose items) = needItems3 items + 12 := by simp [need3]
+
+/-- a node over which the dispatcher is followed directly: entered on the node's first line, it adds the node's entry and
+    stands on the line behind the node's lines, whenever what follows the node (`post`) satisfies `P` -/
+def ThenClaim (ti : Bool) (t : T3) (gn : Nat) (P : List Line → Prop) : Prop :=
+  ∀ (post : List Line), P post → ∀ (k : Nat) (st : St) (g : Nat), gn ≤ g → ∀ (acc : List Entry) (lo : Bool),
+    tokLoop (dcfg ti) (g + 8) ⟨numbered k (write3 t) ++ post, 0, k + 1⟩ st acc lo =
+      tokLoop (dcfg ti) (g + 7) ⟨numbered k (write3 t) ++ post, (write3 t).length, k + 1⟩
+        (after st (touch3 t)) (entry3 (k + 1) t :: acc) lo
+
+theorem list_thenClaim (ti : Bool) (o : Bool) (n : Nat) (mk : Char) (pad : Nat) (loose : Bool) (items : List (List T3))
+    (hok : (T3.list o n mk pad loose items).ok = true) (hI : ItemsClaim ti o mk pad loose n items) :
+    ThenClaim ti (.list o n mk pad loose items) (needItems3 items) PostOk :=
+  fun post hpost k st g hg acc lo => list_then ti o n mk pad loose items hok hI post hpost k st g hg acc lo
+
+/-- a fenced code block, whatever follows it -/
+theorem fence_thenClaim (ti : Bool) (ind : Nat) (d info : Str) (body : List Str) (close : Str)
+    (hok : (T3.fence ind d info body close).ok = true) :
+    ThenClaim ti (.fence ind d info body close) 0 (fun _ => True) := by
+  intro post _ k st g _ acc lo
+  have hf := fenceFacts_of ind d info body close (by simpa [T3.ok] using hok)
+  obtain ⟨c, hfo⟩ := hf.fo
+  have e : numbered k (write3 (.fence ind d info body close)) =
+      { s := sp ind ++ d ++ info ++ ['\n'], origin := k + 1 } ::
+        (numbered (k + 1) body ++ [{ s := close, origin := k + 1 + body.length + 1 }]) := by
+    simp only [write3, numbered_cons, numbered_append]
+    rfl
+  have h1 := tokLoop_fence_step ti g ind hf.indLt c d info hfo { s := sp ind ++ d ++ info ++ ['\n'], origin := k + 1 }
+    { s := close, origin := k + 1 + body.length + 1 } rfl hf.closes (numbered (k + 1) body)
+    (fun x hx => (hf.body _ (numbered_mem _ _ _ hx)).2) [] post (k + 1) st acc lo
+  rw [e]
+  simp only [touch3, after_false, entry3]
+  have hm : (numbered (k + 1) body).map (fun x => dedent ind x.s) = body.map (dedent ind) :=
+    MdRound.numbered_map_s (k + 1) body (dedent ind)
+  simp only [hm, List.nil_append, List.length_nil, Nat.add_zero] at h1
+  simp only [List.cons_append, List.append_assoc, write3, List.length_cons, List.length_append, List.length_nil,
+    numbered_length] at h1 ⊢
+  exact h1
+
+/-- such a node alone in its buffer, or before a final "\n" line -/
+theorem nodes_single_then (ti : Bool) (t : T3) (gn : Nat) (P : List Line → Prop) (hneed : need3 t = gn + 12)
+    (hT : ThenClaim ti t gn P) (hP0 : P []) (hP1 : ∀ nlL : Line, nlL.s = ['\n'] → P [nlL]) :
+    NodesClaim ti [t] := by
+  intro tail k st gas hg
+  rw [needs3_cons, hneed] at hg
+  obtain ⟨g, rfl⟩ : ∃ g, gas = (g + 8) + 1 := ⟨gas - 9, by omega⟩
+  have hgi : gn ≤ g := by simp only [needs3] at hg; omega
+  rw [writes3_single, numbered_append]
+  simp only [tokenizeBlock]
+  cases tail with
+  | false =>
+    have := hT [] hP0 k st g hgi [] false
+    simp only [sepS, Bool.false_eq_true, if_false, show ∀ j, numbered j ([] : List Str) = [] from fun _ => rfl]
+    rw [this]
+    have hend := peek_end (numbered k (write3 t) ++ []) (k + 1)
+    simp only [List.length_append, numbered_length, List.length_nil, Nat.add_zero] at hend
+    have e : g + 7 = (g + 6) + 1 := by omega
+    rw [e]
+    simp only [tokLoop, hend]
+    simp [entries3, touches3]
+  | true =>
+    have := hT _ (hP1 { s := ['\n'], origin := k + (write3 t).length + 1 } rfl) k st g hgi [] false
+    simp only [sepS, if_true, numbered_cons, show ∀ j, numbered j ([] : List Str) = [] from fun _ => rfl]
+    rw [this]
+    have hp := peek_at (numbered k (write3 t))
+      { s := ['\n'], origin := k + (write3 t).length + 1 } [] (k + 1)
+    rw [numbered_length] at hp
+    have e : g + 7 = (g + 6) + 1 := by omega
+    rw [e]
+    generalize hG : g + 6 = G
+    simp only [tokLoop, hp]
+    rw [tryTypes_nl_none (dcfg ti) _ _ _ rfl _ G (dcfg_noBlank ti) (by rw [dcfg_len]; omega)]
+    simp only
+    obtain ⟨G', rfl⟩ : ∃ G', G = G' + 1 := ⟨G - 1, by omega⟩
+    have hend := peek_end (numbered k (write3 t) ++
+      [{ s := ['\n'], origin := k + (write3 t).length + 1 }]) (k + 1)
+    simp only [List.length_append, numbered_length, List.length_singleton] at hend
+    simp only [tokLoop, FW.next, hend]
+    simp [entries3, touches3]
+
+/-- such a node, a "\n" line, further siblings: the dispatcher goes on behind the "\n" line (`tokLoop_suffix_shift`) -/
+theorem nodes_cons_then (ti : Bool) (t t' : T3) (r : List T3) (gn : Nat) (P : List Line → Prop) (hneed : need3 t = gn + 12)
+    (h2 : T3.oks (t' :: r) = true) (hT : ThenClaim ti t gn P)
+    (hP : ∀ (tail : Bool) (k : Nat), P ({ s := ['\n'], origin := k + (write3 t).length + 1 } ::
+      (numbered k (writes3 (t' :: r) ++ sepS tail)).map (Line.sh ((numbered k (write3 t)).length + 1))))
+    (hR : NodesClaim ti (t' :: r)) :
+    NodesClaim ti (t :: t' :: r) := by
+  intro tail k st gas hg
+  rw [needs3_cons, hneed] at hg
+  obtain ⟨g, rfl⟩ : ∃ g, gas = (g + 8) + 1 := ⟨gas - 9, by omega⟩
+  have hgi : gn ≤ g := by omega
+  have hgr : needs3 (t' :: r) ≤ g + 7 := by omega
+  have hlt := hT _ (hP tail k) k st g hgi [] false
+  rw [buf_cons2]
+  simp only [tokenizeBlock]
+  rw [hlt]
+  have hp := peek_at (numbered k (write3 t)) { s := ['\n'], origin := k + (write3 t).length + 1 }
+    ((numbered k (writes3 (t' :: r) ++ sepS tail)).map (Line.sh ((numbered k (write3 t)).length + 1))) (k + 1)
+  have e : g + 7 = (g + 6) + 1 := by omega
+  rw [e]
+  generalize hG : g + 6 = G
+  rw [numbered_length] at hp ⊢
+  simp only [tokLoop, hp]
+  rw [tryTypes_nl_none (dcfg ti) _ _ _ rfl _ G (dcfg_noBlank ti) (by rw [dcfg_len]; omega)]
+  simp only
+  -- behind the "\n" line: the siblings, in a buffer of their own
+  have hB := hR tail k (after st (touch3 t)) (G + 1) (by omega)
+  have hnlB : AllNlEnd (numbered k (writes3 (t' :: r) ++ sepS tail)) := numbered_allNlEnd k _ (lines_ok_tail _ h2 tail)
+  have hsh := tokLoop_suffix_shift (dcfg ti) G (numbered k (write3 t) ++ [{ s := ['\n'], origin := k + (write3 t).length + 1 }])
+    (numbered k (writes3 (t' :: r) ++ sepS tail)) (k + 1) (after st (touch3 t)) [entry3 (k + 1) t] true hnlB
+  simp only [List.length_append, numbered_length, List.length_singleton, List.append_assoc, List.singleton_append] at hsh
+  simp only [FW.next]
+  rw [hsh, hB]
+  simp only [rmap_ok, shB, withAcc]
+  rw [entries3_shift]
+  have e3 : k + 1 + ((write3 t).length + 1) = k + 1 + (write3 t).length + 1 := by omega
+  rw [e3]
+  have hl : decide (1 < (t :: t' :: r).length) = true := by simp
+  rw [hl]
+  simp only [entries3, touches3, after_after, List.reverse_singleton, List.singleton_append, Bool.true_or]
+
+/-- behind a list: the "\n" line and the first line of the next sibling make a `PostOk` -/
+theorem list_post (t t' : T3) (r : List T3) (hl : isList3 t = true) (hok : T3.oks (t :: t' :: r) = true) (tail : Bool) (k : Nat) :
+    PostOk ({ s := ['\n'], origin := k + (write3 t).length + 1 } ::
+      (numbered k (writes3 (t' :: r) ++ sepS tail)).map (Line.sh ((numbered k (write3 t)).length + 1))) := by
+  obtain ⟨_, h2, hsep⟩ := oks3_cons _ (t' :: r) hok
+  have hsep' := hsep t' r rfl
+  obtain ⟨h1', _, _⟩ := oks3_cons t' r h2
+  have hw' := write3_lineOk t' h1'
+  obtain ⟨s0, ss, hs0⟩ : ∃ s0 ss, write3 t' = s0 :: ss := by
+    cases hh : write3 t' with
+    | nil => exact absurd hh hw'.2
+    | cons a b => exact ⟨a, b, rfl⟩
+  have hstop : StopLine s0 := by
+    simp only [sepOk3, hl, Bool.not_true, Bool.false_or, Bool.and_eq_true, hs0, List.headD_cons] at hsep'
+    exact stopLine_of s0 hsep'.2 (hw'.1 s0 (by rw [hs0]; simp))
+  have hhead : ∃ ss', writes3 (t' :: r) ++ sepS tail = s0 :: ss' := by
+    cases r with
+    | nil => rw [writes3_single, hs0]; exact ⟨_, rfl⟩
+    | cons a b => rw [writes3_cons2, hs0]; exact ⟨_, rfl⟩
+  obtain ⟨ss', hss'⟩ := hhead
+  refine Or.inr ⟨_, _, rfl, rfl, ?_⟩
+  intro s hs
+  rw [hss', numbered_cons] at hs
+  simp only [List.map_cons, List.head?_cons, Option.some.injEq] at hs
+  subst hs
+  exact hstop
+
+
+/-! ### The induction over the tree -/
+
+theorem nodes_step_closed (ti : Bool) (t : T3) (rest : List T3) (hok : T3.oks (t :: rest) = true) (hnl : isOpen3 t = false)
+    (hT : NodeClaim ti t) (hR : rest ≠ [] → NodesClaim ti rest) : NodesClaim ti (t :: rest) := by
+  cases rest with
+  | nil => exact nodes_single_closed ti t (oks3_cons t [] hok).1 hnl hT
+  | cons t' r => exact nodes_cons_closed ti t t' r hok hnl hT (hR (by simp))
+
+theorem nodes_step_list (ti : Bool) (o : Bool) (n : Nat) (mk : Char) (pad : Nat) (loose : Bool) (items : List (List T3))
+    (rest : List T3) (hok : T3.oks (.list o n mk pad loose items :: rest) = true)
+    (hI : ItemsClaim ti o mk pad loose n items) (hR : rest ≠ [] → NodesClaim ti rest) :
+    NodesClaim ti (.list o n mk pad loose items :: rest) := by
+  have hT := list_thenClaim ti o n mk pad loose items (oks3_cons _ _ hok).1 hI
+  cases rest with
+  | nil =>
+    exact nodes_single_then ti _ _ PostOk (need3_list ..) hT (Or.inl rfl) (fun nlL h => Or.inr ⟨nlL, [], rfl, h, by simp⟩)
+  | cons t' r =>
+    exact nodes_cons_then ti _ t' r _ PostOk (need3_list ..) (oks3_cons _ _ hok).2.1 hT
+      (fun tail k => list_post _ t' r rfl hok tail k) (hR (by simp))
+
+theorem nodes_step_fence (ti : Bool) (ind : Nat) (d info : Str) (body : List Str) (close : Str)
+    (rest : List T3) (hok : T3.oks (.fence ind d info body close :: rest) = true)
+    (hR : rest ≠ [] → NodesClaim ti rest) :
+    NodesClaim ti (.fence ind d info body close :: rest) := by
+  have hT := fence_thenClaim ti ind d info body close (oks3_cons _ _ hok).1
+  cases rest with
+  | nil => exact nodes_single_then ti _ 0 _ rfl hT trivial (fun _ _ => trivial)
+  | cons t' r => exact nodes_cons_then ti _ t' r 0 _ rfl (oks3_cons _ _ hok).2.1 hT (fun _ _ => trivial) (hR (by simp))
+
+theorem items_step (ti : Bool) (o : Bool) (mk : Char) (pad : Nat) (loose : Bool) (n : Nat) (it : List T3) (rest : List (List T3))
+    (h1 : 1 ≤ pad) (h4 : pad ≤ 4) (hok : T3.okItems o mk pad n (it :: rest) = true) (hN : NodesClaim ti it)
+    (hR : rest ≠ [] → ItemsClaim ti o mk pad loose (n + 1) rest) : ItemsClaim ti o mk pad loose n (it :: rest) := by
+  cases rest with
+  | nil => exact items_last ti o mk pad loose n it h1 h4 hok hN
+  | cons it' r => exact items_cons ti o mk pad loose n it it' r h1 h4 hok hN (hR (by simp))
+
+mutual
+/-- **siblings** (any nodes of the fragment), in a buffer of their own -/
+theorem nodes_claim (ti : Bool) : ∀ (ts : List T3), T3.oks ts = true → ts ≠ [] → NodesClaim ti ts
+  | [], _, hne => absurd rfl hne
+  | .para ls :: rest, h, _ =>
+    nodes_step_closed ti _ rest h rfl (node_para ti ls (oks3_cons _ _ h).1)
+      (fun hne => nodes_claim ti rest (oks3_cons _ _ h).2.1 hne)
+  | .heading lv t line :: rest, h, _ =>
+    nodes_step_closed ti _ rest h rfl (node_heading ti lv t line (oks3_cons _ _ h).1)
+      (fun hne => nodes_claim ti rest (oks3_cons _ _ h).2.1 hne)
+  | .hr line :: rest, h, _ =>
+    nodes_step_closed ti _ rest h rfl (node_hr ti line (oks3_cons _ _ h).1)
+      (fun hne => nodes_claim ti rest (oks3_cons _ _ h).2.1 hne)
+  | .quote bare kids :: rest, h, _ =>
+    nodes_step_closed ti _ rest h rfl
+      (node_quote ti bare kids (oks3_cons _ _ h).1
+        (nodes_claim ti kids (quoteOk3_of bare kids (oks3_cons _ _ h).1).2.1 (quoteOk3_of bare kids (oks3_cons _ _ h).1).1))
+      (fun hne => nodes_claim ti rest (oks3_cons _ _ h).2.1 hne)
+  | .list o n mk pad loose items :: rest, h, _ =>
+    have hl := listOk_of o n mk pad loose items (oks3_cons _ _ h).1
+    nodes_step_list ti o n mk pad loose items rest h
+      (items_claim ti o mk pad loose hl.p1 hl.p4 n items hl.its hl.ne)
+      (fun hne => nodes_claim ti rest (oks3_cons _ _ h).2.1 hne)
+  | .fence ind d info body close :: rest, h, _ =>
+    nodes_step_fence ti ind d info body close rest h
+      (fun hne => nodes_claim ti rest (oks3_cons _ _ h).2.1 hne)
+/-- **the items of a list**, anywhere in a buffer -/
+theorem items_claim (ti : Bool) (o : Bool) (mk : Char) (pad : Nat) (loose : Bool) (h1 : 1 ≤ pad) (h4 : pad ≤ 4) :
+    ∀ (n : Nat) (items : List (List T3)), T3.okItems o mk pad n items = true → items ≠ [] → ItemsClaim ti o mk pad loose n items
+  | _, [], _, hne => absurd rfl hne
+  | n, it :: rest, h, _ =>
+    items_step ti o mk pad loose n it rest h1 h4 h
+      (nodes_claim ti it (okItems_cons o mk pad n it rest h).2.1 (okItems_cons o mk pad n it rest h).1)
+      (fun hne => items_claim ti o mk pad loose h1 h4 (n + 1) rest (okItems_cons o mk pad n it rest h).2.2.2.2.2 hne)
+end
+
+
+/-- **the block phase of a written document** -/
+theorem blockPhase_writes3 (ti : Bool) (ts : List T3) (h : T3.oks ts = true) (hne : ts ≠ []) (gas : Nat) (hg : needs3 ts ≤ gas) :
+    blockPhase (dcfg ti) gas (writes3 ts) =
+      .ok ({ entries := entries3 1 ts, loose := decide (1 < ts.length) }, {}) := by
+  have e : blockPhase (dcfg ti) gas (writes3 ts) = tokenizeBlock (dcfg ti) gas (numbered 0 (writes3 ts)) 1 {} := rfl
+  rw [e]
+  have := nodes_claim ti ts h hne false 0 {} gas hg
+  simp only [sepS, Bool.false_eq_true, if_false, List.append_nil, Nat.zero_add, Bool.or_false] at this
+  rw [this]
+  simp [after]
+
+
+
+/-! ### The block token constructors on the expected entries -/
+
+open Mistletoe.Document (joinNl mkBlock mkBlocks mkItems)
+open Mistletoe.Html Mistletoe.Escape
+open Mistletoe.InertInline (flat_append flat_prose)
+open Mistletoe.ComposeL (itemLooseB listHtml flat_cons2 flat_list flat_li_open flat_li_close flat_li_empty flat_if_nl
+  flat_item2_nil flat_item2_cons listHtml_ne mkBlock_of_single2)
+
+/-- the language of a fenced code block: the first word of the info string (`fenceLang`: the non-blank characters behind
+    the leading spaces), backslash escapes and character references resolved -/
+def langOf (info : Str) : Str := Unescape.escStrip false (fenceLang info)
+
+/-- `<pre><code class="language-…">`, the content with `&`, `<`, `>` (and the quotes, as the options say) escaped,
+    `</code></pre>`; no `class` attribute when there is no language -/
+def fenceHtml (q : Quotes) (lang content : Str) : Str :=
+  "<pre><code".toList ++ (if lang.isEmpty then [] else " class=\"language-".toList ++ htmlEscape lang ++ "\"".toList) ++ ">".toList
+    ++ escapeHtmlText q.dq q.sq content ++ "</code></pre>".toList
+
+mutual
+/-- the block token expected for a node whose first line is line `n` -/
+def block3 (n : Nat) : T3 → Mistletoe.Block
+  | .para ls => .paragraph (proseInlines (ls.map strip)) n
+  | .heading lv t line => .heading lv (closingOf line) [.rawText t] n
+  | .hr line => .thematicBreak (Document.stripNl line) n
+  | .quote _ kids => .quote (blocks3 n kids) n
+  | .list o s mk pad loose items => .list loose (if o then some s else none) (itemBlocks3 o mk pad loose s n items) n
+  | .fence ind d info body _ => .codeFence (langOf info) ind d info (body.map (dedent ind)).flatten n
+def blocks3 (n : Nat) : List T3 → List Mistletoe.Block
+  | [] => []
+  | t :: rest => block3 n t :: blocks3 (n + (write3 t).length + 1) rest
+def itemBlocks3 (o : Bool) (mk : Char) (pad : Nat) (loose : Bool) (s : Nat) (n : Nat) : List (List T3) → List Mistletoe.Block
+  | [] => []
+  | it :: rest =>
+    .listItem (leaderOf o s mk) 0 ((leaderOf o s mk).length + pad) ((loose && !rest.isEmpty) || decide (1 < it.length)) (blocks3 n it) n
+      :: itemBlocks3 o mk pad loose (s + 1) (n + (writes3 it).length + (sepS loose).length) rest
+end
+
+/-- the looseness `List.__init__` computes from the items -/
+def itemsLoose3 (loose : Bool) : List (List T3) → Bool
+  | [] => false
+  | it :: rest => ((loose && !rest.isEmpty) || decide (1 < it.length)) || itemsLoose3 loose rest
+
+theorem any_itemBlocks3 (o : Bool) (mk : Char) (pad : Nat) (loose : Bool) : ∀ (s n : Nat) (items : List (List T3)),
+    (itemBlocks3 o mk pad loose s n items).any itemLooseB = itemsLoose3 loose items
+  | _, _, [] => rfl
+  | s, n, it :: rest => by
+    simp only [itemBlocks3, List.any_cons, itemLooseB, itemsLoose3, any_itemBlocks3 o mk pad loose _ _ rest]
+
+theorem itemsLoose3_false : ∀ (items : List (List T3)), items.all (fun it => it.length == 1) = true → itemsLoose3 false items = false
+  | [], _ => rfl
+  | it :: rest, h => by
+    simp only [List.all_cons, Bool.and_eq_true, beq_iff_eq] at h
+    simp only [itemsLoose3, Bool.false_and, Bool.false_or, h.1, itemsLoose3_false rest h.2]
+    decide
+
+/-- `loose` is the looseness the constructor computes -/
+theorem itemsLoose3_eq (loose : Bool) (items : List (List T3))
+    (h : (if loose then decide (2 ≤ items.length) || items.any (fun it => decide (1 < it.length))
+          else items.all (fun it => it.length == 1)) = true) : itemsLoose3 loose items = loose := by
+  cases loose with
+  | false => exact itemsLoose3_false items (by simpa using h)
+  | true =>
+    simp only [if_true, Bool.or_eq_true, decide_eq_true_eq, List.any_eq_true] at h
+    cases items with
+    | nil =>
+      rcases h with h | ⟨x, hx, _⟩
+      · simp at h
+      · simp at hx
+    | cons it rest =>
+      cases rest with
+      | cons it' r => simp [itemsLoose3]
+      | nil =>
+        rcases h with h | ⟨x, hx, hx2⟩
+        · simp at h
+        · simp only [List.mem_singleton] at hx
+          subst hx
+          simp [itemsLoose3, hx2]
+
+mutual
+theorem mkBlock_entry3 (cfg : Document.Cfg) (fn : Footnotes.Table) (ht : ∀ t ∈ cfg.span, inertClass t = true)
+    (hc : cfg.span.count .lineBreak = 1) : ∀ (t : T3), t.ok = true → ∀ (n : Nat),
+    mkBlock cfg fn (entry3 n t) = .ok (some (block3 n t))
+  | .para ls, h, n => by
+    have hp := paraOk_of ls (by simpa [T3.ok, T.ok] using h)
+    exact mkBlock_of_single2 cfg fn _ _ (InertInline.mkBlocks_prose cfg fn ls n n ht hc hp.ne hp.prose hp.body)
+  | .heading lv t line, h, n => by
+    have hh := headOk_of lv t line (by simpa [T3.ok, T.ok] using h)
+    have hin : Document.inl cfg fn t = .ok [.rawText t] := InertInline.tokenizeInner_inert cfg.span fn t ht hh.inert hh.ne
+    simp only [entry3, block3, mkBlock, hin]
+  | .hr line, h, n => by
+    simp only [entry3, block3, mkBlock]
+  | .quote bare kids, h, n => by
+    obtain ⟨_, hk, _⟩ := quoteOk3_of bare kids h
+    simp only [entry3, block3, mkBlock, mkBlocks_entries3 cfg fn ht hc kids hk n]
+  | .list o s mk pad loose items, h, n => by
+    have hl := listOk_of o s mk pad loose items h
+    have hits := mkItems_items3 cfg fn ht hc o mk pad loose s n items hl.its
+    simp only [entry3, block3, mkBlock, hits]
+    cases items with
+    | nil => exact absurd rfl hl.ne
+    | cons it rest =>
+      obtain ⟨_, _, hlead, _⟩ := okItems_cons o mk pad s it rest hl.its
+      simp only [items3]
+      have hany := any_itemBlocks3 o mk pad loose s n (it :: rest)
+      rw [itemsLoose3_eq loose _ hl.looseC] at hany
+      have hA : ∀ (f : Mistletoe.Block → Bool), (∀ b, f b = itemLooseB b) →
+          (itemBlocks3 o mk pad loose s n (it :: rest)).any f = loose := by
+        intro f hf
+        refine Eq.trans ?_ hany
+        congr 1; funext b; exact hf b
+      rw [hA _ (by intro b; cases b <;> rfl)]
+      cases o with
+      | false => simp [leaderOf]
+      | true =>
+        obtain ⟨d, e, hd, _, h1, _, _⟩ := leaderOk_ordered _ hlead
+        simp only [leaderOf, if_true] at hd ⊢
+        have e1 : natDigits s = d := (List.append_inj' hd (by simp)).1
+        have hne : ((natDigits s ++ [mk]).length != 1) = true := by
+          rw [e1]; simp only [List.length_append, List.length_singleton, bne_iff_ne, ne_eq]; omega
+        simp only [hne, if_true, List.dropLast_concat, hl.start rfl]
+  | .fence ind d info body close, h, n => by
+    simp only [entry3, block3, mkBlock, langOf]
+theorem mkBlocks_entries3 (cfg : Document.Cfg) (fn : Footnotes.Table) (ht : ∀ t ∈ cfg.span, inertClass t = true)
+    (hc : cfg.span.count .lineBreak = 1) : ∀ (ts : List T3), T3.oks ts = true → ∀ (n : Nat),
+    mkBlocks cfg fn (entries3 n ts) = .ok (blocks3 n ts)
+  | [], _, _ => by simp [entries3, blocks3, mkBlocks]
+  | t :: rest, h, n => by
+    obtain ⟨h1, h2, _⟩ := oks3_cons t rest h
+    simp only [entries3, blocks3, mkBlocks, mkBlock_entry3 cfg fn ht hc t h1 n,
+      mkBlocks_entries3 cfg fn ht hc rest h2 _]
+theorem mkItems_items3 (cfg : Document.Cfg) (fn : Footnotes.Table) (ht : ∀ t ∈ cfg.span, inertClass t = true)
+    (hc : cfg.span.count .lineBreak = 1) (o : Bool) (mk : Char) (pad : Nat) (loose : Bool) : ∀ (s n : Nat) (items : List (List T3)),
+    T3.okItems o mk pad s items = true →
+    mkItems cfg fn (items3 o mk pad loose s n items) = .ok (itemBlocks3 o mk pad loose s n items)
+  | _, _, [], _ => by simp [items3, itemBlocks3, mkItems]
+  | s, n, it :: rest, h => by
+    obtain ⟨_, hit, _, _, _, hrest⟩ := okItems_cons o mk pad s it rest h
+    simp only [items3, itemBlocks3, mkItems, mkBlocks_entries3 cfg fn ht hc it hit n,
+      mkItems_items3 cfg fn ht hc o mk pad loose _ _ rest hrest]
+end
+
+/-- **`Document(lines)` on a written document** -/
+theorem parseLines_writes3 (cfg : Document.Cfg) (ti : Bool) (hb : cfg.block = dcfg ti)
+    (ht : ∀ t ∈ cfg.span, inertClass t = true) (hc : cfg.span.count .lineBreak = 1)
+    (ts : List T3) (h : T3.oks ts = true) (hne : ts ≠ []) (gas : Nat) (hg : needs3 ts ≤ gas) :
+    Document.parseLines cfg gas (writes3 ts) = .ok { kids := blocks3 1 ts, footnotes := [] } := by
+  unfold Document.parseLines
+  rw [hb, blockPhase_writes3 ti ts h hne gas hg]
+  simp only
+  rw [mkBlocks_entries3 cfg _ ht hc ts h 1]
+  rfl
+
+
+/-! ### HTML written directly from the tree -/
+
+def isPara3 : T3 → Bool
+  | .para _ => true
+  | _ => false
+
+def itemHtml3 (s : Bool) (it : List T3) (inner : Str) : Str :=
+  match it with
+  | [] => "<li></li>".toList
+  | first :: _ =>
+    "<li>".toList ++ (if s && isPara3 first then [] else ['\n']) ++ inner
+      ++ (if s && (it.getLast?.map isPara3).getD false then [] else ['\n']) ++ "</li>".toList
+
+mutual
+/-- the HTML of one node; `s`: directly inside an item of a tight list -/
+def html3 (q : Quotes) (s : Bool) : T3 → Str
+  | .para ls => if s then escapeHtmlText q.dq q.sq (joinNl (ls.map strip)) else paraHtml q ls
+  | .heading lv t _ => headHtml q lv t
+  | .hr _ => hrHtml
+  | .quote _ kids => quoteHtml (htmlAfter3 q kids)
+  | .list o st _ _ loose items => listHtml o st (htmlItems3 q (!loose) items)
+  | .fence ind _ info body _ => fenceHtml q (langOf info) (body.map (dedent ind)).flatten
+/-- nodes, each followed by a newline (document, quote) -/
+def htmlAfter3 (q : Quotes) : List T3 → Str
+  | [] => []
+  | t :: rest => html3 q false t ++ '\n' :: htmlAfter3 q rest
+/-- nodes separated by newlines (list item) -/
+def htmlSep3 (q : Quotes) (s : Bool) : List T3 → Str
+  | [] => []
+  | t :: rest =>
+    match rest with
+    | [] => html3 q s t
+    | _ :: _ => html3 q s t ++ '\n' :: htmlSep3 q s rest
+/-- items separated by newlines -/
+def htmlItems3 (q : Quotes) (s : Bool) : List (List T3) → Str
+  | [] => []
+  | it :: rest =>
+    match rest with
+    | [] => itemHtml3 s it (htmlSep3 q s it)
+    | _ :: _ => itemHtml3 s it (htmlSep3 q s it) ++ '\n' :: htmlItems3 q s rest
+end
+
+/-- the HTML of the document -/
+def htmlOf3 (o : Opts) (ts : List T3) : Str := htmlAfter3 o.q ts
+
+theorem isParagraph_block3 (n : Nat) : ∀ (t : T3), isParagraph (block3 n t) = isPara3 t
+  | .para _ => rfl
+  | .heading _ _ _ => rfl
+  | .hr _ => rfl
+  | .quote _ _ => rfl
+  | .list .. => rfl
+  | .fence .. => rfl
+
+theorem blocks3_getLast : ∀ (ts : List T3) (n : Nat),
+    ((blocks3 n ts).getLast?.map isParagraph).getD false = (ts.getLast?.map isPara3).getD false
+  | [], _ => rfl
+  | [t], n => by simp [blocks3, isParagraph_block3]
+  | t :: t' :: r, n => by
+    have ih := blocks3_getLast (t' :: r) (n + (write3 t).length + 1)
+    simp only [blocks3, List.getLast?_cons_cons] at ih ⊢
+    exact ih
+
+theorem itemHtml_nil (s : Bool) (inner : Str) : itemHtml3 s [] inner = "<li></li>".toList := rfl
+theorem itemHtml_cons (s : Bool) (first : T3) (rest : List T3) (inner : Str) : itemHtml3 s (first :: rest) inner =
+    "<li>".toList ++ (if s && isPara3 first then [] else ['\n']) ++ inner
+      ++ (if s && ((first :: rest).getLast?.map isPara3).getD false then [] else ['\n']) ++ "</li>".toList := rfl
+
+theorem flat_item3 (q : Quotes) (s : Bool) (it : List T3) (n : Nat) (ld : Str) (ind pre : Nat) (lo : Bool)
+    (h : flat (renderSep q s (blocks3 n it)) = htmlSep3 q s it) :
+    flat (renderBlock q s (.listItem ld ind pre lo (blocks3 n it) n)) = itemHtml3 s it (htmlSep3 q s it) := by
+  cases it with
+  | nil =>
+    simp only [blocks3]
+    rw [itemHtml_nil]
+    exact flat_item2_nil q s n ld ind pre lo
+  | cons first rest =>
+    have hlast := blocks3_getLast (first :: rest) n
+    simp only [blocks3] at h hlast
+    simp only [blocks3]
+    rw [itemHtml_cons, flat_item2_cons, h, hlast, isParagraph_block3]
+
+theorem htmlItems_cons2 (q : Quotes) (s : Bool) (it it' : List T3) (r : List (List T3)) :
+    htmlItems3 q s (it :: it' :: r) = itemHtml3 s it (htmlSep3 q s it) ++ '\n' :: htmlItems3 q s (it' :: r) := by
+  simp [htmlItems3]
+
+mutual
+theorem flat_block3 (q : Quotes) : ∀ (t : T3) (s : Bool) (n : Nat), flat (renderBlock q s (block3 n t)) = html3 q s t
+  | .para ls, s, n => by
+    simp only [block3, html3, paraHtml, renderBlock]
+    cases s with
+    | true => simp only [if_true, flat_prose]
+    | false =>
+      simp only [Bool.false_eq_true, if_false, flat_append, flat_prose]
+      simp [flat, flatEv, flatAttrs]
+  | .heading lv t line, s, n => by
+    simp only [block3, html3, headHtml]
+    simp only [renderBlock, renderInlines, renderInline, flat_cons2, Compose.flat_nil,
+      flatEv, flatAttrs, List.append_nil, List.append_assoc, List.cons_append, List.nil_append]
+  | .hr line, s, n => by
+    simp only [block3, html3, hrHtml, renderBlock]
+    decide
+  | .quote _ kids, s, n => by
+    simp only [block3, html3]
+    simp only [renderBlock, flat_append, flat_after3 q kids n]
+    generalize htmlAfter3 q kids = x
+    have h1 : flat [Ev.otag "blockquote".toList [], nl] = ['<', 'b', 'l', 'o', 'c', 'k', 'q', 'u', 'o', 't', 'e', '>', '\n'] := by
+      decide +kernel
+    have h2 : flat [Ev.ctag "blockquote".toList] = ['<', '/', 'b', 'l', 'o', 'c', 'k', 'q', 'u', 'o', 't', 'e', '>'] := by
+      decide +kernel
+    rw [h1, h2, quoteHtml]
+  | .list o st mk pad loose items, s, n => by
+    simp only [block3, html3]
+    rw [flat_list, flat_items3 q o mk pad loose (!loose) items st n]
+  | .fence ind d info body close, s, n => by
+    simp only [block3, html3, fenceHtml, renderBlock]
+    cases hl : (langOf info).isEmpty <;>
+      simp [flat, flatEv, flatAttrs]
+theorem flat_after3 (q : Quotes) : ∀ (ts : List T3) (n : Nat),
+    flat (renderAfterEach q false (blocks3 n ts)) = htmlAfter3 q ts
+  | [], _ => by simp [blocks3, renderAfterEach, htmlAfter3, flat]
+  | t :: rest, n => by
+    simp only [blocks3, htmlAfter3]
+    simp only [renderAfterEach, flat_append, flat_block3 q t false n, flat_after3 q rest _]
+    simp [flat, flatEv, nl]
+theorem flat_sep3 (q : Quotes) (s : Bool) : ∀ (ts : List T3) (n : Nat),
+    flat (renderSep q s (blocks3 n ts)) = htmlSep3 q s ts
+  | [], _ => by simp [blocks3, renderSep, htmlSep3, flat]
+  | [t], n => by simp only [blocks3, renderSep, htmlSep3, flat_block3 q t s n]
+  | t :: t' :: r, n => by
+    have ih := flat_sep3 q s (t' :: r) (n + (write3 t).length + 1)
+    simp only [blocks3, htmlSep3] at ih ⊢
+    simp only [renderSep, flat_append, flat_block3 q t s n, ih]
+    simp [flat, flatEv, nl]
+theorem flat_items3 (q : Quotes) (o : Bool) (mk : Char) (pad : Nat) (loose : Bool) (s : Bool) : ∀ (items : List (List T3)) (st n : Nat),
+    flat (renderSep q s (itemBlocks3 o mk pad loose st n items)) = htmlItems3 q s items
+  | [], _, _ => by simp [itemBlocks3, renderSep, htmlItems3, flat]
+  | [it], st, n => by
+    simp only [itemBlocks3, renderSep, htmlItems3]
+    exact flat_item3 q s it n _ _ _ _ (flat_sep3 q s it n)
+  | it :: it' :: r, st, n => by
+    have ih := flat_items3 q o mk pad loose s (it' :: r) (st + 1) (n + (writes3 it).length + (sepS loose).length)
+    rw [htmlItems_cons2, ← ih]
+    simp only [itemBlocks3, renderSep, flat_append]
+    rw [flat_item3 q s it n _ _ _ _ (flat_sep3 q s it n)]
+    simp [flat, flatEv, nl]
+end
+theorem html3_ne (q : Quotes) : ∀ (t : T3), html3 q false t ≠ []
+  | .para _ => by simp [html3, paraHtml]
+  | .heading _ _ _ => by simp [html3, headHtml]
+  | .hr _ => by simp [html3, hrHtml]
+  | .quote _ _ => by simp only [html3]; exact quoteHtml_ne _
+  | .list .. => by simp only [html3]; exact listHtml_ne _ _ _
+  | .fence .. => by simp [html3, fenceHtml]
+
+/-- **the HTML renderer on the expected document** -/
+theorem render_blocks3 (o : Opts) (ts : List T3) (hne : ts ≠ []) (fn : List (Str × Str × Str)) :
+    render o { kids := blocks3 1 ts, footnotes := fn } = htmlOf3 o ts := by
+  obtain ⟨t, rest, rfl⟩ : ∃ t rest, ts = t :: rest := by
+    cases ts with
+    | nil => exact absurd rfl hne
+    | cons t rest => exact ⟨t, rest, rfl⟩
+  have hk : blocks3 1 (t :: rest) = block3 1 t :: blocks3 (1 + (write3 t).length + 1) rest := by simp [blocks3]
+  have hnonempty : (flat (renderSep o.q false (blocks3 1 (t :: rest)))).isEmpty = false := by
+    rw [hk]
+    cases hr : blocks3 (1 + (write3 t).length + 1) rest with
+    | nil =>
+      simp only [renderSep, flat_block3]
+      simpa using html3_ne o.q t
+    | cons b bs =>
+      simp only [renderSep, flat_append, flat_block3]
+      simp [html3_ne o.q t]
+  have hd : renderDoc o.q { kids := blocks3 1 (t :: rest), footnotes := fn } =
+      renderSep o.q false (blocks3 1 (t :: rest)) ++ [nl] := by
+    simp only [renderDoc, hk]
+    rw [← hk, hnonempty]
+    simp
+  rw [render, hd, flat_append]
+  have : flat [nl] = ['\n'] := rfl
+  rw [this, Compose.flat_sep_afterEach o.q false _ (by rw [hk]; simp), flat_after3]
+  rfl
+
+/-! ### From the text as one `str`, and the bundled HTML configuration -/
+
+/-- **`Document(text)`** for the written lines concatenated into one string -/
+theorem parse_writes3 (cfg : Document.Cfg) (ti : Bool) (hb : cfg.block = dcfg ti)
+    (ht : ∀ t ∈ cfg.span, inertClass t = true) (hc : cfg.span.count .lineBreak = 1)
+    (ts : List T3) (h : T3.oks ts = true) (hne : ts ≠ []) (gas : Nat) (hg : needs3 ts ≤ gas) :
+    Document.parse cfg gas (writes3 ts).flatten = .ok { kids := blocks3 1 ts, footnotes := [] } := by
+  rw [InertInline.parse_lines cfg _ (writes3 ts) (fun l hl => lineOk_oneLine ((writes3_lineOk ts h).1 l hl))]
+  exact parseLines_writes3 cfg ti hb ht hc ts h hne gas hg
+
+/-- **end to end**: `HtmlRenderer(**opts).render(Document(text))` on the written text is the HTML written
+    directly from the tree -/
+theorem renderHtml_writes3 (o : Opts) (ts : List T3) (h : T3.oks ts = true) (hne : ts ≠ []) (gas : Nat) (hg : needs3 ts ≤ gas) :
+    Config.renderHtml o gas (writes3 ts).flatten = some (htmlOf3 o ts) := by
+  unfold Config.renderHtml
+  cases hc : Config.html with
+  | none =>
+    have := Props.C14.C14_config_current.1
+    rw [hc] at this
+    cases this
+  | some cfg =>
+    obtain ⟨hb, ht, hcnt⟩ := Compose.html_config cfg hc
+    simp only
+    rw [parse_writes3 cfg _ hb ht hcnt ts h hne gas hg]
+    simp only
+    rw [render_blocks3 o ts hne]
+
+
+
 end Mistletoe.ComposeC
